@@ -34,10 +34,11 @@ type Fn struct {
 	InlineOnly bool         // takes a *LockPile: inlined at call sites
 	nLits      int
 
-	aliases map[*types.Var]ast.Expr
-	flagOf  map[*types.Var]int
-	fresh   map[*types.Var]bool // locals holding an object created in this function
-	Needs   []int               // guard classes the caller must hold (inferred, see inferNeeds)
+	aliases      map[*types.Var]ast.Expr
+	flagOf       map[*types.Var]int
+	fresh        map[*types.Var]bool // locals holding an object created in this function
+	Needs        []int               // guard classes the caller must hold (inferred, see inferNeeds)
+	HeapCallback bool                // Len/Less/Swap/Push/Pop of a container/heap implementation: called by container/heap, not an entry point
 }
 
 type interner struct {
@@ -157,7 +158,7 @@ func (t *Tr) lockID(class, name string) int {
 	}
 	gc := t.guardClass(class, strings.HasSuffix(name, "#R"))
 	k := t.serial[gc]
-	if k >= 999 {
+	if k >= 998 {
 		die("more than 998 lock expressions of class %s", class)
 	}
 	t.serial[gc] = k + 1
@@ -169,6 +170,17 @@ func (t *Tr) lockID(class, name string) int {
 }
 
 func (t *Tr) ghostID(gc int) int { return 1000*gc + 999 }
+
+// ownID: serial 998 = "exclusive ownership of an object created in this call" (never
+// blocks: ignored by the acquired-while-holding relation).
+func (t *Tr) ownID(gc int) int {
+	id := 1000*gc + 998
+	if _, ok := t.lockKey[id]; !ok {
+		t.lockKey[id] = [2]string{t.classes.names[gc], "‹object created in this call›"}
+		t.lockOrder = append(t.lockOrder, id)
+	}
+	return id
+}
 
 func (t *Tr) line(p token.Pos) int { return t.fset.Position(p).Line }
 
@@ -378,6 +390,23 @@ func isPileType(ty types.Type) bool {
 func (t *Tr) analyse(f *Fn, body *ast.BlockStmt, info *types.Info) {
 	f.aliases = map[*types.Var]ast.Expr{}
 	f.flagOf = map[*types.Var]int{}
+	f.fresh = map[*types.Var]bool{}
+	isFreshExpr := func(e ast.Expr) bool {
+		switch x := ast.Unparen(e).(type) {
+		case *ast.CompositeLit:
+			return true
+		case *ast.UnaryExpr:
+			if x.Op == token.AND {
+				_, ok := ast.Unparen(x.X).(*ast.CompositeLit)
+				return ok
+			}
+		case *ast.CallExpr:
+			if id, ok := x.Fun.(*ast.Ident); ok && (id.Name == "new" || id.Name == "make") {
+				return true
+			}
+		}
+		return false
+	}
 	assigns := map[*types.Var]int{}  // number of assignments (a definition counts)
 	defined := map[*types.Var]bool{} // defined inside the body (not a parameter)
 	rhsOf := map[*types.Var]ast.Expr{}
@@ -577,12 +606,9 @@ func (t *Tr) freshLocal(c ctx, e ast.Expr) bool {
 			if !ok {
 				return false
 			}
-			for g := c.fn; g != nil; g = g.Parent {
-				if g.fresh[v] {
-					return true
-				}
-			}
-			return false
+			// only within the creating function itself: a closure that captures the
+			// variable may run after the object has been published
+			return c.fn.fresh[v]
 		}
 		return false
 	}
@@ -769,6 +795,24 @@ func (t *Tr) stmts(c ctx, list []ast.Stmt) *S {
 				out = append(out, t.stmts(c, rest))
 			}
 			return seqs(out...)
+		}
+		if c.top {
+			// conditional defers registered inside this statement (see above) run when the
+			// function returns, before the defers registered by earlier statements
+			var late []*S
+			c2 := c
+			c2.late = &late
+			s := t.stmt(c2, st)
+			if len(late) > 0 {
+				body := seq(s, t.stmts(c, list[i+1:]))
+				for _, d := range late {
+					body = fin(body, d)
+				}
+				out = append(out, body)
+				return seqs(out...)
+			}
+			out = append(out, s)
+			continue
 		}
 		out = append(out, t.stmt(c, st))
 	}
@@ -961,9 +1005,12 @@ func (t *Tr) stmt(c ctx, st ast.Stmt) *S {
 		return t.clauses(c, x.Body, x.Pos(), false)
 	case *ast.ForStmt:
 		init := t.stmt(c.nested(), x.Init)
-		g1 := t.guardSkip(t.expr(c, x.Cond), x.Pos(), "loop condition with lock effects")
+		// `for cond { body }`: the condition is evaluated before every iteration and once
+		// more when the loop ends (also added after a `break`, where it is not evaluated:
+		// a harmless over-approximation for the balanced calls that occur in conditions).
+		condEff := t.expr(c, x.Cond)
 		g2 := t.guardSkip(t.stmt(c.nested(), x.Post), x.Pos(), "loop post statement with lock effects")
-		return seqs(init, g1, g2, loop(x.Cond != nil, t.stmts(c.loopBody(), x.Body.List)))
+		return seqs(init, g2, loop(x.Cond != nil, seq(condEff, t.stmts(c.loopBody(), x.Body.List))), condEff)
 	case *ast.RangeStmt:
 		if tv, ok := info.Types[x.X]; ok {
 			if _, isFunc := tv.Type.Underlying().(*types.Signature); isFunc {
@@ -1312,7 +1359,51 @@ func (t *Tr) callTo(c ctx, g *Fn, fun ast.Expr, call *ast.CallExpr) *S {
 	if hasPile {
 		return t.inlineFn(c, g, actual, call)
 	}
-	return &S{K: "call", Tag: t.line(call.Pos()), Call: &CallSite{Callee: g, Actual: actual}}
+	var fresh []string
+	noteFresh := func(e ast.Expr) {
+		if !t.freshLocal(c, e) {
+			return
+		}
+		if tv, ok := c.pkg.TypesInfo.Types[e]; ok && tv.Type != nil {
+			for _, gt := range t.guardIdx[shortType(tv.Type)] {
+				fresh = append(fresh, gt.Locks...)
+			}
+		}
+	}
+	if sel, ok := fun.(*ast.SelectorExpr); ok {
+		noteFresh(sel.X)
+	}
+	for _, a := range call.Args {
+		noteFresh(a)
+	}
+	return &S{K: "call", Tag: t.line(call.Pos()), Call: &CallSite{Callee: g, Actual: actual, Fresh: fresh}}
+}
+
+// wrapFresh: a call whose callee requires "caller holds a lock of class c" and whose
+// receiver/argument is an unpublished object of a type guarded by class c is bracketed by
+// the acquisition and release of a synthetic lock of that class ("ownership of a fresh
+// object").
+func (t *Tr) wrapFresh(s *S) *S {
+	if s == nil {
+		return nil
+	}
+	if s.K == "call" {
+		out := s
+		for _, gc := range s.Call.Callee.Needs {
+			cl := t.classes.names[gc]
+			if in(s.Call.Fresh, cl) {
+				id := t.ownID(t.guardClass(cl, false))
+				out = seqs(&S{K: "acq", L: id}, out, &S{K: "rel", L: id})
+			}
+		}
+		return out
+	}
+	if s.A == nil && s.B == nil {
+		return s
+	}
+	c := *s
+	c.A, c.B = t.wrapFresh(s.A), t.wrapFresh(s.B)
+	return &c
 }
 
 func (f *Fn) litFor(v *types.Var) (*ast.FuncLit, bool) {
@@ -1333,7 +1424,6 @@ func (t *Tr) inlineLit(c ctx, lit *ast.FuncLit, call *ast.CallExpr) *S {
 	c2 := c
 	c2.top = true
 	c2.depth++
-	c2.late = nil
 	return scope(t.stmts(c2, lit.Body.List))
 }
 
@@ -1438,7 +1528,7 @@ func (s *S) acqIDs(acc map[int]bool) {
 	if s == nil {
 		return
 	}
-	if s.K == "acq" || s.K == "pileLock" {
+	if (s.K == "acq" || s.K == "pileLock") && s.L%1000 != 998 {
 		acc[s.L] = true
 	}
 	s.A.acqIDs(acc)
@@ -1549,14 +1639,22 @@ func (t *Tr) inferNeeds(rel []*Fn) []string {
 	for changed := true; changed; {
 		changed = false
 		for _, f := range rel {
-			if _, ok := forced(f); ok || f.Exported {
+			if _, ok := forced(f); ok || (f.Exported && !f.HeapCallback) {
 				continue
 			}
 			var want []int
 			var ns [][]int
 			f.Body.needs(&ns)
 			for _, cs := range ns {
-				want = append(want, base(cs[0]))
+				held := false
+				for _, c := range cs {
+					if selfAcq[f][base(c)] {
+						held = true
+					}
+				}
+				if !held {
+					want = append(want, base(cs[0]))
+				}
 			}
 			var cs []*CallSite
 			f.Body.calls(&cs)
@@ -1587,6 +1685,9 @@ func (t *Tr) inferNeeds(rel []*Fn) []string {
 			f.Req = append(f.Req, t.ghostID(gc))
 			f.Post = append(f.Post, t.ghostID(gc))
 		}
+	}
+	for _, f := range rel {
+		f.Body = t.wrapFresh(f.Body)
 	}
 	sort.Strings(either)
 	return either
